@@ -34,6 +34,9 @@ pub struct Term {
     /// a sum of two multiples of the same single unit: `k1 u + k2 u` (only with one numerator unit)
     #[serde(default)]
     pub plus: Option<(u64, bool)>,
+    /// the second summand's unit when it is another unit of the same dimensionality: `k1 u + k2 v`
+    #[serde(default)]
+    pub plus_unit: Option<String>,
 }
 
 impl Term {
@@ -45,6 +48,7 @@ impl Term {
             wrap_pow: None,
             explicit_one: false,
             plus: None,
+            plus_unit: None,
         }
     }
     pub fn render(&self) -> String {
@@ -52,7 +56,11 @@ impl Term {
         let inner = match self.plus {
             Some((k2, minus)) if self.num.len() == 1 && self.den.is_empty() => {
                 let (u, p) = &self.num[0];
-                let uu = if *p == 1 { u.clone() } else { format!("{}^{}", u, p) };
+                let uu = match &self.plus_unit {
+                    Some(v) => v.clone(),
+                    None if *p == 1 => u.clone(),
+                    None => format!("{}^{}", u, p),
+                };
                 format!("{} {} {} {}", inner, if minus { "-" } else { "+" }, k2, uu)
             }
             _ => inner,
@@ -194,11 +202,35 @@ fn term_value(ctx: &Context, t: &Term) -> TermVal {
                 None => Q::small(1),
             };
             let unit_part = v.div(&k1).unwrap();
-            let k = if minus { k1.sub(&Q::new(k2.into(), 1.into())) } else { k1.add(&Q::new(k2.into(), 1.into())) };
-            if k.is_zero() {
-                return TermVal::Unusable("sum target cancels to zero");
+            if let Some(other) = &t.plus_unit {
+                // k1 u + k2 v with v another unit of u's dimensionality
+                if unusable(other).is_some() {
+                    return TermVal::Unusable("name not usable bare in a query");
+                }
+                let n = match ctx.lookup(other) {
+                    Some(n) => n,
+                    None => return TermVal::Unusable("generated prefix/plural form does not resolve"),
+                };
+                if rinkx::dims_of(&n) != dims {
+                    return TermVal::Unusable("second summand of another dimensionality");
+                }
+                let q = match rinkx::rational_of(&n.value) {
+                    Some((a, b)) => Q::new(a, b),
+                    None => return TermVal::Unusable("float-valued unit"),
+                };
+                let second = q.mul(&Q::new(k2.into(), 1.into()));
+                let sum = if minus { v.sub(&second) } else { v.add(&second) };
+                if sum.is_zero() || sum.signum() < 0 {
+                    return TermVal::Unusable("sum target cancels to zero or is negative");
+                }
+                v = sum;
+            } else {
+                let k = if minus { k1.sub(&Q::new(k2.into(), 1.into())) } else { k1.add(&Q::new(k2.into(), 1.into())) };
+                if k.is_zero() {
+                    return TermVal::Unusable("sum target cancels to zero");
+                }
+                v = unit_part.mul(&k);
             }
-            v = unit_part.mul(&k);
         }
     }
     if let Some(n) = t.wrap_pow {
@@ -480,9 +512,9 @@ fn compound(pool: Arc<UnitPool>, reciprocal: bool, conformable: bool) -> impl St
         proptest::option::weighted(0.35, prop_oneof![(1u64..50, 1u64..2), (1u64..20, 2u64..9)]),
         proptest::option::weighted(0.12, Just("potato".to_string())),
         any::<prop::sample::Index>(),
-        (proptest::option::weighted(0.15, 2u8..=3), proptest::bool::weighted(0.15), proptest::option::weighted(0.1, (1u64..9, any::<bool>()))),
+        (proptest::option::weighted(0.15, 2u8..=3), proptest::bool::weighted(0.15), proptest::option::weighted(0.12, (1u64..9, any::<bool>())), proptest::option::weighted(0.5, deco())),
     )
-        .prop_map(move |(c, factors, konst, inline_name, twist, (wrap_pow, explicit_one, plus))| {
+        .prop_map(move |(c, factors, konst, inline_name, twist, (wrap_pow, explicit_one, plus, plus_deco))| {
             let mut src = Term {
                 konst: None,
                 num: vec![],
@@ -490,6 +522,7 @@ fn compound(pool: Arc<UnitPool>, reciprocal: bool, conformable: bool) -> impl St
                 wrap_pow,
                 explicit_one,
                 plus: None,
+                plus_unit: None,
             };
             let mut tgt = Term {
                 konst,
@@ -498,6 +531,7 @@ fn compound(pool: Arc<UnitPool>, reciprocal: bool, conformable: bool) -> impl St
                 wrap_pow,
                 explicit_one: false,
                 plus: None,
+                plus_unit: None,
             };
             for (class, pow, in_num, ds, dt) in &factors {
                 let su = pick_in_class(&pool, *class, ds);
@@ -529,6 +563,12 @@ fn compound(pool: Arc<UnitPool>, reciprocal: bool, conformable: bool) -> impl St
             }
             if tgt.num.len() == 1 && tgt.den.is_empty() && inline_name.is_none() {
                 tgt.plus = plus;
+                if let (Some(_), Some(d)) = (plus, &plus_deco) {
+                    // a different unit of the same dimensionality, only for a first power
+                    if tgt.num[0].1 == 1 && tgt.wrap_pow.is_none() {
+                        tgt.plus_unit = Some(pick_in_class(&pool, factors[0].0, d));
+                    }
+                }
             }
             Case {
                 c,
